@@ -11,7 +11,7 @@ import subprocess
 import tempfile
 
 from harness.bounded import BoundedContract, chunked
-from props.C14 import base_mnemo, family, known_groups, machine
+from props.C14 import base_mnemo, family, known_groups, machine, split_failures
 
 PROPERTY = {
     "id": "C17",
@@ -230,12 +230,7 @@ class RefCases(BoundedContract):
     def check(self, case):
         a, k, g = case
         n, fails = run_chunk(a, k)
-        gs = known_groups("C17")
-        if g:
-            mine = [(t, w) for t, w in fails if t in gs[g][1]]
-        else:
-            known = set().union(*(ts for _, ts in gs.values()))
-            mine = [(t, w) for t, w in fails if t not in known]
+        mine = split_failures("C17", fails, g)
         if not mine:
             return (True, "", n > 0)
         seen = {}
